@@ -122,6 +122,8 @@ def evaluate(t, env, funcs=None):
             return _num(f(*[ev(x, local) for x in a[1:]]))
         if op == 'app':
             name = a[0]
+            if name == 'stopgrad':
+                return ev(a[1], local)
             args = [ev(x, local) for x in a[1:]]
             if name == 'log':
                 if args[0] <= 0:
